@@ -57,7 +57,12 @@ pub enum Op {
     /// Chain grows by k blocks.
     Block { k: u32, notify: NotifyMode },
     /// Whole-node crash and restart.
-    Crash { lose_answers: bool },
+    /// `down_s`: seconds the node stays down (wall clock and virtual time move on).
+    Crash {
+        lose_answers: bool,
+        #[serde(default = "one")]
+        down_s: u64,
+    },
     /// Wall clock jumps.
     ClockJump { secs: i64 },
     /// RPC socket unreachable / reachable again.
@@ -74,6 +79,10 @@ pub enum Op {
     /// E2 watcher: from here on notifications are lost and polls are answered
     /// promptly; the height must catch up within one poll interval.
     CatchupMark,
+}
+
+fn one() -> u64 {
+    1
 }
 
 impl Op {
